@@ -28,10 +28,10 @@ LOADER_LF = {
 
 FLAGS: typing.Dict[str, typing.Dict[str, bool]] = {
     "plain": {},
-    "trim": {"trim_blocks": True},
-    "lstrip": {"lstrip_blocks": True},
-    "both": {"trim_blocks": True, "lstrip_blocks": True},
-    "ktn": {"keep_trailing_newline": True},
+    "trim_blocks": {"trim_blocks": True},
+    "lstrip_blocks": {"lstrip_blocks": True},
+    "trim+lstrip": {"trim_blocks": True, "lstrip_blocks": True},
+    "keep_trailing_newline": {"keep_trailing_newline": True},
 }
 LINE_ENDINGS = ("lf", "crlf")
 
@@ -95,9 +95,10 @@ def _pristine_lexer(env: typing.Any) -> typing.Any:
     pat = regex.pattern
     n = 0
     for start in (env.block_start_string, env.variable_start_string, env.comment_start_string):
-        needle = "|[ \\t]*" + re.escape(start) + "\\*"
-        n += pat.count(needle)
-        pat = pat.replace(needle, "")
+        # `|[ \t]*<start>\*` as written by Nunavut; tolerate small variations of the blank class and of the star
+        needle = re.compile(r"\|(?:\[ \\t\]|\\s)[*+]" + re.escape(re.escape(start)) + r"\\\*\??")
+        pat, k = needle.subn("", pat)
+        n += k
     pristine_info["alternatives_removed"] = n
     lx.rules["root"][0] = (re.compile(pat, regex.flags), tokens, new_state)
     return lx
@@ -153,13 +154,18 @@ def family(exc: BaseException) -> str:
 Outcome = typing.Tuple[str, str]  # ("ok", text) | ("err", family)
 
 
+COUNT = {"compiles": 0, "renders": 0}  # per process; workers report deltas
+
+
 def render_env(env: typing.Any, src: str, ctxs: typing.Sequence[typing.Mapping[str, typing.Any]]) -> typing.List[Outcome]:
+    COUNT["compiles"] += 1
     try:
         t = env.from_string(src)
     except Exception as e:  # pylint: disable=broad-except
         return [("err", family(e))] * len(ctxs)
     out: typing.List[Outcome] = []
     for c in ctxs:
+        COUNT["renders"] += 1
         try:
             out.append(("ok", t.render(**c)))
         except Exception as e:  # pylint: disable=broad-except
